@@ -9,10 +9,11 @@ from harness.framework import Suite
 
 PID = "C17"
 LEAN_MODS = ["SwcVerif.Props.C17"]
-THEOREMS = ["C17.init_inv", "C17.greedy_step", "C17.step_inv", "C17.spanning", "C17.branching_limit", "C17.prim_step_partial"]
+THEOREMS = ["C17.init_inv", "C17.greedy_step", "C17.step_inv", "C17.spanning", "C17.branching_limit", "C17.prim_step", "C17.prim_minimal", "C17.prim_attains"]
 TRUSTED = ["hand-written model Model/Mst.lean of the greedy loop (tied by the c17.mst correspondence: the parent array compared exactly; the model is fed "
            "the float64 distance matrix the code computes, as exact rationals)"]
-ASSUMPTIONS = ["np.linalg.norm / float64 rounding of the distance matrix and of `dis + bf*acc` (clouds whose best and second-best cost are closer than 1e-9 are rejected)",
+ASSUMPTIONS = ["prim_minimal assumes a symmetric, non-negative matrix: |p_i - p_j| computed by np.linalg.norm is both (IEEE negation is exact)",
+               "np.linalg.norm / float64 rounding of the distance matrix and of `dis + bf*acc` (clouds whose best and second-best cost are closer than 1e-9 are rejected)",
                "numpy masked-array argmin = first minimum in row-major order over the unmasked cells"]
 
 
@@ -196,10 +197,10 @@ class MstSuite(Suite):
 SUITES = [MstSuite()]
 TECHNIQUE = ("Lean 4 theorems about the model of the greedy loop (mask invariant: open cells are exactly connected-unsaturated source × unconnected target; each "
              "iteration connects one new point to an earlier one with the least edge + bf·path cost; child counts never exceed the limit; n-1 iterations give a "
-             "spanning tree rooted at 0) + differential correspondence on the code's own distance matrix + independent re-simulation of the stated rule and a "
+             "spanning tree rooted at 0; for bf = 0 and no limit the exchange argument carried through the whole loop: the returned tree is no longer than any connected spanning edge list, and is itself one) + differential correspondence on the code's own distance matrix + independent re-simulation of the stated rule and a "
              "Kruskal oracle for the MST weight")
 LEVEL_TEXT = ("Kernel-checked for every distance matrix, balancing factor and branching limit: the loop maintains the mask invariant, so every iteration attaches "
               "a not yet connected point to an already connected, unsaturated one that minimises edge length + bf·(path length of the attachment point); after n-1 "
-              "iterations every point has exactly one parent chain to point 0; no non-exempt point exceeds the limit. Optimality of the bf=0, unlimited case "
-              "(total weight = MST weight) is proved only as Prim's cut step (partial) and checked against Kruskal by the oracle.")
+              "iterations every point has exactly one parent chain to point 0; no non-exempt point exceeds the limit. For bf=0 without a limit the total length equals the minimum over all "
+              "connected spanning edge lists of a symmetric non-negative matrix (prim_minimal + prim_attains: Prim's exchange argument, every n); Kruskal is the independent oracle.")
 LEVEL_NOTE = "Trusted: Lean kernel; model tied by correspondence on the code's float64 distance matrix; float rounding of costs; numpy masked argmin."
